@@ -1470,7 +1470,7 @@ class Walker:
             e = sb["root_entry"]
             if e["cache"] == 1 and root.get("stab") != (e["btree"], e["heap"]):
                 self.errors.append("superblock: cached root B-tree/heap addresses %s differ from the root group's symbol table message %s" % ((e["btree"], e["heap"]), root.get("stab")))
-            if e["cache"] != 1:
+            if e["cache"] not in (0, 1):        # 0: nothing cached (legal, the reference library reads the header); 2 is for symbolic links
                 self.errors.append("superblock: root symbol table entry cache type %d" % e["cache"])
         for a, nd in self.objects.items():
             if "error" in nd:
